@@ -1315,6 +1315,103 @@ def far_pass_volume(ctx, desc, V, C, rng):
                                ("mean_cell_volume", R.mean_cell_volume, FAR_REL * 10 * float(np.max(R.cdiam ** 3)))])
 
 
+def needle_pass(ctx, desc, rng):
+    """Valid needle / cap / sliver triangles with corner angles 1e-3 ... 1e-9 rad (outside the 3-degree gate of the other passes, so judged
+    only on what stays well conditioned): corner_angles against the exact-rational reference, per-triangle angle sum, sum of angle defects,
+    cotangent (fresh and from cached angles).  Bounds (u = 2^-53, eps = 2u): edge vectors are exact differences; each component of u x w and
+    the dot product carry an absolute error <= 3u|u||w|, so atan2(|u x w|, u.w) is off by <= 6u + 2u*angle ABSOLUTE (relative error u/angle
+    for a tiny angle: the cross product of nearly parallel vectors cancels) -> tolerance 8 eps + 8 eps*angle; three angles -> pi within 32 eps;
+    cot = cos/sin or -tan(angle + pi/2): error <= (1+cot^2) * (6u + u*pi/2) -> tolerance 16 eps (1+cot^2)."""
+    import mouette as M
+    A = M.attributes
+    V, F, name, th = c07_planar.needle_surface(rng)
+    ctx.cls("needle:" + name.split("~")[0].rstrip("0123456789"))
+    ctx.cls("needle_angle:1e%d" % int(math.floor(math.log10(th))))
+    env = Env(ctx, "surface", V, F, desc["vrows"], desc["irows"])
+    if not env.probe():
+        return
+    V = env.V
+    ang = {}
+    cot = {}
+    for fi, f in enumerate(F):
+        for k in range(3):
+            ang[(fi, f[k])], cot[(fi, f[k])] = geomq.exact_corner(V[f[k - 1]], V[f[k]], V[f[(k + 1) % 3]])
+    if min(ang.values()) <= 0 or not all(np.isfinite(list(cot.values()))):
+        ctx.note("needle_input_degenerate_after_rounding")
+        return
+    exp_a = np.array([ang[(f, v)] for v, f in env.CN])
+    exp_c = np.array([cot[(f, v)] for v, f in env.CN])
+    tol_a = 8 * EPS + 8 * EPS * exp_a
+    tol_c = 16 * EPS * (1 + exp_c ** 2)
+    spec_a, spec_c = SURF_FUNCS["corner_angles"], SURF_FUNCS["cotangent"]
+    first = None
+    for persistent in (True, False):
+        for dense in (True, False):
+            arr = call_quantity(ctx, env, "corner_angles", spec_a, persistent, dense, None, {}, check_left=False)
+            if arr is None:
+                continue
+            first = arr if first is None else first
+            ctx.obs("needle", "corner_angles", len(exp_a))
+            err = np.abs(arr - exp_a)
+            _margin_named(ctx, "needle", "corner_angles", err, tol_a)
+            if not bool(np.all(err <= tol_a)):
+                i = int(np.argmax(err / tol_a))
+                small = exp_a[i] < 1e-2
+                ctx.violation("needle", "corner_angles", "small_angle_inaccurate" if small else "values_differ",
+                              "corner angle %.6e rad returned as %.6e (error %.2e, tolerance %.2e)" % (exp_a[i], arr[i], err[i], tol_a[i]),
+                              expected=exp_a[i], got=arr[i], nominal_needle_angle=th, face=F[env.CN[i][1]], points=V[F[env.CN[i][1]]])
+            arr_c = call_quantity(ctx, env, "cotangent", spec_c, persistent, dense, None, {}, check_left=False)
+            if arr_c is not None:
+                _needle_cot(ctx, "cotangent", arr_c, exp_c, tol_c)
+    if first is not None:
+        sums = np.zeros(len(F))
+        for c, (v, f) in enumerate(env.CN):
+            sums[f] += first[c]
+        ctx.obs("needle", "triangle_angle_sum", len(F))
+        e = np.abs(sums - math.pi)
+        _margin_named(ctx, "needle", "triangle_angle_sum", e, np.full(len(F), 32 * EPS))
+        if not bool(np.all(e <= 32 * EPS)):
+            ctx.violation("needle", "triangle_angle_sum", "angles_of_a_needle_triangle_do_not_sum_to_pi",
+                          "corner angles of a needle triangle sum to pi %+.3e" % float(np.max(e)), nominal_needle_angle=th)
+    # cot from the cached angles (the library's other branch) and the angle defects, on one mesh
+    m = env.fresh()
+    ok, _ = ctx.call("corner_angles", A.corner_angles, m, abort=False)
+    if ok:
+        arr_c = call_quantity(ctx, env, "cotangent", spec_c, rng.random() < 0.5, True, None, {}, mesh=m, check_left=False)
+        if arr_c is not None:
+            _needle_cot(ctx, "cotangent_from_cached_angles", arr_c, exp_c, tol_c)
+    Rn = geomq.topo_counts(len(V), F)
+    d = call_quantity(ctx, env, "angle_defects", SURF_FUNCS["angle_defects"], rng.random() < 0.5, rng.random() < 0.5, None, {}, check_left=False)
+    if d is not None:
+        tot = float(np.sum(d))
+        tol = 16 * EPS * (len(exp_a) + len(V))
+        ctx.obs("needle", "defect_sum_2pi_chi")
+        _margin_named(ctx, "needle", "defect_sum_2pi_chi", np.array([abs(tot - 2 * math.pi * Rn["chi"])]), np.array([tol]))
+        if abs(tot - 2 * math.pi * Rn["chi"]) > tol:
+            ctx.violation("needle", "defect_sum_2pi_chi", "sum_of_angle_defects_is_not_2pi_chi",
+                          "sum of angle defects %.15g != 2 pi chi = %.15g on a needle mesh" % (tot, 2 * math.pi * Rn["chi"]), chi=Rn["chi"],
+                          nominal_needle_angle=th)
+
+
+def _needle_cot(ctx, op, arr, exp, tol):
+    ctx.obs("needle", op, len(exp))
+    with np.errstate(invalid="ignore"):
+        err = np.abs(arr - exp)
+    _margin_named(ctx, "needle", op, err, tol)
+    if not bool(np.all(err <= tol)):
+        i = int(np.argmax(np.nan_to_num(err / tol, nan=np.inf)))
+        ctx.violation("needle", op, "cotangent_of_small_angle_inaccurate" if abs(exp[i]) > 100 else "values_differ",
+                      "cotangent %.9e returned as %.9e (error %.2e, tolerance %.2e)" % (exp[i], arr[i], err[i], tol[i]), expected=exp[i], got=arr[i])
+
+
+def _margin_named(ctx, monitor, op, err, tol):
+    with np.errstate(invalid="ignore", divide="ignore"):
+        r = err / tol
+    m = float(np.nanmax(r)) if len(r) else 0.0
+    b = "<=1e-3" if m <= 1e-3 else "<=1e-2" if m <= 1e-2 else "<=1e-1" if m <= 1e-1 else "<=0.5" if m <= 0.5 else "<=1" if m <= 1 else ">1"
+    ctx.note("%s_error_over_tolerance:%s:%s" % (monitor, op, b))
+
+
 def custom_normals_after_cached_normals(ctx, env, R, rng):
     """History: the SAME mesh object already carries the persistent face attribute "normals" (left by a default face_normals(mesh) or by
     a persistent vertex_normals(mesh)); vertex_normals(custom_fnormals=...) must still interpolate the caller's field, for every weighting."""
@@ -1489,6 +1586,9 @@ def run_surface(desc, ctx):
     if desc.get("planar_pt"):
         planar_transport_pass(ctx, desc, rng)
     far_pass_surface(ctx, desc, V, F, rng)
+    if desc["gen"] == "tri":
+        for _ in range(2):
+            needle_pass(ctx, desc, rng)
     if desc.get("source") == "nonconvex":
         face_rotations(ctx, env, R, rng, desc)
 
